@@ -427,6 +427,11 @@ func (cx *caseCtx) exec(spec chainSpec, router int) {
 	resp, sl := do("authorize", req, lit, body, spec.AuthFault)
 	run.Count("trigger", spec.Trigger)
 	run.Count("uri_kind", spec.Req.Kind)
+	if spec.Req.Kind == "meta-subst" && client != nil {
+		defer func() {
+			run.Count("meta_subst:"+rn, fmt.Sprintf("glob_opt_in=%v -> %s", client.Globs, steps[0].Outcome))
+		}()
+	}
 	run.Distinct(dims("authorize", spec.Trigger))
 	out := cx.judge(rn, "authorize", spec, resp, sl, client, cands, witness)
 	if cx.sample {
@@ -571,6 +576,9 @@ func (cx *caseCtx) judge(rn, phase string, spec chainSpec, resp *opdrv.Resp, sl 
 		if !anyOK {
 			run.Count("not_allowed_answered_directly", firstWhy)
 			run.Observed("refused-unregistered:" + rn)
+			if spec.Req.Kind == "meta-subst" {
+				run.Observed("meta-subst-refused:" + rn)
+			}
 			if globErr {
 				run.Count("malformed_glob_answered_directly:"+rn, fmt.Sprintf("%d %s", resp.Status, code))
 				run.Observed("malformed-glob-decided:" + rn)
